@@ -523,7 +523,7 @@ def _graphs():
 
 
 def helper_table():
-    """name -> (has_arg, has_acyclic, {explicit: builder(solver, arg_kwargs, acyclic)})"""
+    """name -> (has_arg, has_acyclic, {(graph given, data-dependent condition holds): builder(solver, arg, acyclic)})"""
     import cspuz.graph as G
     from cspuz.grid_frame import BoolGridFrame, BoolInnerGridFrame
     tri, path = _graphs()
@@ -533,50 +533,53 @@ def helper_table():
 
     H = {}
     H["active_vertices_connected"] = (True, True, {
-        True: lambda s, a, ac: G.active_vertices_connected(s, s.bool_array(3), path, acyclic=ac, **kw(a)),
-        False: lambda s, a, ac: G.active_vertices_connected(s, s.bool_array((2, 2)), acyclic=ac, **kw(a))})
+        (True, False): lambda s, a, ac: G.active_vertices_connected(s, s.bool_array(3), path, acyclic=ac, **kw(a)),
+        (False, False): lambda s, a, ac: G.active_vertices_connected(s, s.bool_array((2, 2)), acyclic=ac, **kw(a))})
     H["_active_vertices_connected"] = (True, True, {
-        True: lambda s, a, ac: G._active_vertices_connected(s, s.bool_array(3).data, tri, ac, **kw(a))})
+        (True, False): lambda s, a, ac: G._active_vertices_connected(s, s.bool_array(3).data, tri, ac, **kw(a))})
     H["active_edges_single_cycle"] = (True, False, {
-        True: lambda s, a, ac: G.active_edges_single_cycle(s, s.bool_array(3), tri, **kw(a)),
-        False: lambda s, a, ac: G.active_edges_single_cycle(s, BoolGridFrame(s, 1, 2), **kw(a))})
+        (True, False): lambda s, a, ac: G.active_edges_single_cycle(s, s.bool_array(3), tri, **kw(a)),
+        (False, False): lambda s, a, ac: G.active_edges_single_cycle(s, BoolGridFrame(s, 1, 2), **kw(a))})
     H["_active_edges_single_cycle"] = (True, False, {
-        True: lambda s, a, ac: G._active_edges_single_cycle(s, s.bool_array(3).data, tri, **kw(a))})
+        (True, False): lambda s, a, ac: G._active_edges_single_cycle(s, s.bool_array(3).data, tri, **kw(a))})
     H["active_edges_single_path"] = (True, False, {
-        True: lambda s, a, ac: G.active_edges_single_path(s, s.bool_array(2), path, **kw(a)),
-        False: lambda s, a, ac: G.active_edges_single_path(s, BoolGridFrame(s, 1, 1), **kw(a))})
+        (True, False): lambda s, a, ac: G.active_edges_single_path(s, s.bool_array(2), path, **kw(a)),
+        (False, False): lambda s, a, ac: G.active_edges_single_path(s, BoolGridFrame(s, 1, 1), **kw(a))})
     H["_active_edges_single_path"] = (True, False, {
-        True: lambda s, a, ac: G._active_edges_single_path(s, s.bool_array(2).data, path, **kw(a))})
+        (True, False): lambda s, a, ac: G._active_edges_single_path(s, s.bool_array(2).data, path, **kw(a))})
     H["active_edges_connected_crossable"] = (True, False, {
-        False: lambda s, a, ac: G.active_edges_connected_crossable(s, BoolGridFrame(s, 2, 2), **kw(a)),
-        True: lambda s, a, ac: G.active_edges_connected_crossable(s, BoolGridFrame(s, 1, 2), single_cycle=True, **kw(a))})
+        (False, False): lambda s, a, ac: G.active_edges_connected_crossable(s, BoolGridFrame(s, 2, 2), **kw(a)),
+        (True, False): lambda s, a, ac: G.active_edges_connected_crossable(s, BoolGridFrame(s, 1, 2), single_cycle=True, **kw(a))})
     H["active_edges_single_cycle_crossable"] = (True, False, {
-        False: lambda s, a, ac: G.active_edges_single_cycle_crossable(s, BoolGridFrame(s, 2, 1), **kw(a)),
-        True: lambda s, a, ac: G.active_edges_single_cycle_crossable(s, BoolGridFrame(s, 1, 1), **kw(a))})
+        (False, False): lambda s, a, ac: G.active_edges_single_cycle_crossable(s, BoolGridFrame(s, 2, 1), **kw(a)),
+        (True, False): lambda s, a, ac: G.active_edges_single_cycle_crossable(s, BoolGridFrame(s, 1, 1), **kw(a))})
     H["division_connected_variable_groups_with_borders"] = (True, False, {
-        True: lambda s, a, ac: G.division_connected_variable_groups_with_borders(
+        (True, False): lambda s, a, ac: G.division_connected_variable_groups_with_borders(
             s, group_size=[None, 2, s.int_var(1, 3)], is_border=s.bool_array(3), graph=tri, **kw(a)),
-        False: lambda s, a, ac: G.division_connected_variable_groups_with_borders(
+        (False, False): lambda s, a, ac: G.division_connected_variable_groups_with_borders(
             s, group_size=s.int_array((2, 2), 1, 4), is_border=BoolInnerGridFrame(s, 2, 2), **kw(a))})
     H["_division_connected_variable_groups_with_borders"] = (True, False, {
-        True: lambda s, a, ac: G._division_connected_variable_groups_with_borders(
+        (True, False): lambda s, a, ac: G._division_connected_variable_groups_with_borders(
             s, path, [None, None, 1], s.bool_array(2), None if a == "omit" else a)})
     H["_division_connected"] = (True, False, {
-        True: lambda s, a, ac: G._division_connected(s, s.int_array(3, 0, 1), 2, tri, **kw(a))})
+        (True, False): lambda s, a, ac: G._division_connected(s, s.int_array(3, 0, 1), 2, tri, **kw(a))})
     H["division_connected"] = (False, False, {
-        True: lambda s, a, ac: G.division_connected(s, s.int_array(3, 0, 1), 2, path, roots=[0, None]),
-        False: lambda s, a, ac: G.division_connected(s, s.int_array((2, 2), 0, 1), 2, allow_empty_group=True)})
+        (True, False): lambda s, a, ac: G.division_connected(s, s.int_array(3, 0, 1), 2, path, roots=[0, None]),
+        (False, False): lambda s, a, ac: G.division_connected(s, s.int_array((2, 2), 0, 1), 2, allow_empty_group=True)})
     H["active_vertices_not_adjacent_and_not_segmenting"] = (False, False, {
-        True: lambda s, a, ac: G.active_vertices_not_adjacent_and_not_segmenting(s, s.bool_array(3), path),
-        False: lambda s, a, ac: G.active_vertices_not_adjacent_and_not_segmenting(s, s.bool_array((2, 2)))})
+        (True, False): lambda s, a, ac: G.active_vertices_not_adjacent_and_not_segmenting(s, s.bool_array(3), path),
+        (False, False): lambda s, a, ac: G.active_vertices_not_adjacent_and_not_segmenting(s, s.bool_array((2, 3))),
+        (False, True): lambda s, a, ac: G.active_vertices_not_adjacent_and_not_segmenting(s, s.bool_array((1, 3)))})
+    H["active_vertices_not_adjacent_and_not_segmenting/column"] = (False, False, {
+        (False, True): lambda s, a, ac: G.active_vertices_not_adjacent_and_not_segmenting(s, s.bool_array((3, 1)))})
     H["division_connected_variable_groups"] = (False, False, {
-        True: lambda s, a, ac: G.division_connected_variable_groups(s, graph=tri, group_size=2),
-        False: lambda s, a, ac: G.division_connected_variable_groups(s, shape=(2, 2))})
+        (True, False): lambda s, a, ac: G.division_connected_variable_groups(s, graph=tri, group_size=2),
+        (False, False): lambda s, a, ac: G.division_connected_variable_groups(s, shape=(2, 2))})
     H["active_edges_acyclic"] = (False, False, {
-        True: lambda s, a, ac: G.active_edges_acyclic(s, s.bool_array(3), tri)})
+        (True, False): lambda s, a, ac: G.active_edges_acyclic(s, s.bool_array(3), tri)})
     H["active_vertices_not_adjacent"] = (False, False, {
-        True: lambda s, a, ac: G.active_vertices_not_adjacent(s, s.bool_array(3), tri),
-        False: lambda s, a, ac: G.active_vertices_not_adjacent(s, s.bool_array((2, 2)))})
+        (True, False): lambda s, a, ac: G.active_vertices_not_adjacent(s, s.bool_array(3), tri),
+        (False, False): lambda s, a, ac: G.active_vertices_not_adjacent(s, s.bool_array((2, 2)))})
     return H
 
 
@@ -601,12 +604,12 @@ def prim_cases(ctx):
     H = helper_table()
     for name in H:
         has_arg, has_acy, builders = H[name]
-        for explicit in sorted(builders):
+        for (explicit, dd) in sorted(builders):
             for p in (False, True):
                 for d in (False, True):
                     for arg in ((None, True, False, "omit") if has_arg else ("omit",)):
                         for ac in ((False, True) if has_acy else (False,)):
-                            yield (name, p, d, arg, ac, explicit)
+                            yield (name, p, d, arg, ac, explicit, dd)
 
 
 def observe_prims(ctx):
@@ -626,13 +629,13 @@ def observe_prims(ctx):
     out = []
     try:
         sys.modules["cspuz_core"] = fake
-        for (name, p, d, arg, ac, explicit) in prim_cases(ctx):
+        for (name, p, d, arg, ac, explicit, dd) in prim_cases(ctx):
             # the flags are assigned immediately before the call; the opposite values are in place while the
             # solver and its variables are created (the configuration must be read at call time)
             cfg.use_graph_primitive = not p
             cfg.use_graph_division_primitive = not d
             s = cspuz.Solver()
-            build = H[name][2][explicit]
+            build = H[name][2][(explicit, dd)]
 
             def f():
                 cfg.use_graph_primitive = p
@@ -652,7 +655,7 @@ def observe_prims(ctx):
                     t_ops.add("div")
                 assert t_ops == ops, "emitted text has %r, constraints have %r" % (t_ops, ops)
                 return ("avc=%d" % ("avc" in ops), "div=%d" % ("div" in ops))
-            out.append(((name, p, d, arg, ac, explicit), norm_err(vlib.guarded(f))))
+            out.append(((name, p, d, arg, ac, explicit, dd), norm_err(vlib.guarded(f))))
     finally:
         if saved_mod is H:
             sys.modules.pop("cspuz_core", None)
@@ -720,8 +723,8 @@ def correspond(ctx):
     for (inp, io), r in zip(obs["receiver"], m.batch(reqs)):
         ctx.corr("receiver", inp, parse_simple(r), io)
 
-    reqs = ["PRIM %s %d %d %s %d %d" % (name, p, d, arg_tok(arg), ac, explicit)
-            for ((name, p, d, arg, ac, explicit), _) in obs["prim"]]
+    reqs = ["PRIM %s %d %d %s %d %d %d" % (name.split("/")[0], p, d, arg_tok(arg), ac, explicit, dd)
+            for ((name, p, d, arg, ac, explicit, dd), _) in obs["prim"]]
     for (inp, io), r in zip(obs["prim"], m.batch(reqs)):
         ctx.corr("prim", inp, parse_simple(r), io)
         ctx.count("prim-arg:" + str(inp[3]))
@@ -794,10 +797,12 @@ SPEC_HELPERS = {
 }
 
 
-def spec_prim(name, p, d, arg, ac, explicit):
+def spec_prim(name, p, d, arg, ac, explicit, dd):
+    name = name.split("/")[0]
     if name == "active_vertices_not_adjacent_and_not_segmenting":
-        # only the graph form posts a connectivity constraint (documented TODO for the grid form)
-        use = p and explicit
+        # the graph form and single-row / single-column boards post the connectivity of the complement
+        # (configuration decides); larger boards use the diagonal-chain encoding (documented TODO)
+        use = p and (explicit or dd)
         return ("ok", ("avc=%d" % use, "div=0"))
     if name not in SPEC_HELPERS:
         return ("ok", ("avc=0", "div=0"))
@@ -846,18 +851,18 @@ def search(ctx):
                           "the solve was not received by the configured backend / entry point",
                           {"kind": "receiver", "method": method, "backend_argument": {"N": None, "S": v, "C": "<class Mine>"}[k],
                            "config.default_backend": db, "config.backend_path": bp, "expected": so, "observed": io})
-    for ((name, p, d, arg, ac, explicit), io) in obs["prim"]:
-        ctx.prop_case("prim-vs-spec", (name, p, d, str(arg), ac, explicit))
-        so = spec_prim(name, p, d, arg, ac, explicit)
+    for ((name, p, d, arg, ac, explicit, dd), io) in obs["prim"]:
+        ctx.prop_case("prim-vs-spec", (name, p, d, str(arg), ac, explicit, dd))
+        so = spec_prim(name, p, d, arg, ac, explicit, dd)
         if so != io:
-            ctx.violation("prim:%s:p=%d:d=%d:arg=%s:acyclic=%d:graph=%d" % (name, p, d, arg, ac, explicit),
+            ctx.violation("prim:%s:p=%d:d=%d:arg=%s:acyclic=%d:graph=%d:dd=%d" % (name, p, d, arg, ac, explicit, dd),
                           "native graph operator used / not used against the explicit argument or configuration",
                           {"kind": "prim", "helper": name, "config.use_graph_primitive": p, "config.use_graph_division_primitive": d,
                            "use_graph_primitive": str(arg), "acyclic": ac, "graph_given": explicit, "expected": so, "observed": io})
     ctx.note("graph-helper and receiver decision tables are enumerated exhaustively over their finite argument domains; "
              "environment strings are a fixed set of %d backend values x %d flag spellings (+ random case/whitespace variants)"
              % (len(B_VALUES), len(F_CORE) + len(F_MORE)))
-    ctx.note("active_vertices_not_adjacent_and_not_segmenting on a 2-D array has no use_graph_primitive decision (documented TODO in graph.py): it never posts the native operator; not counted as a violation")
+    ctx.note("active_vertices_not_adjacent_and_not_segmenting on a 2-D array with both sides >= 2 has no use_graph_primitive decision (documented TODO in graph.py): it never posts the native operator; not counted as a violation")
 
 
 def replay(ctx, rp):
